@@ -314,3 +314,25 @@ Example C03_ex_no_squatting :
   addressed_of (env_run squat_hist) = [(6, ATo 0); (8, ANobody)] /\
   departed (env_run squat_hist) = [name0].
 Proof. exact squat_refused. Qed.
+
+(* ---- C03 + C01 + C02 composed: the receiver's side of a relayed message ---------------------------------------
+   For EVERY well-formed message m from a client, every name n the bus may stamp (C03_minted_name_valid) within
+   the size limits, any bytes following on the recipient's socket and any sufficient number of descriptors:
+   the bytes the bus relays are accepted by the recipient's loader model as one message, header ++ body are exactly
+   those bytes, the body bytes are exactly the sender's, the DBusTypeReader model reads exactly the sender's
+   values with the sender's signature, and the SENDER field the recipient sees is n.
+   Premises satisfiable: C03_ex_relay_bytes.  Proof: Proofs/StampReceive.v (stamp_wf_msg + the chain of
+   Proofs/EndToEnd.v). *)
+From DV Require Import Spec.Codec Wire.Message Wire.Reader Proofs.LoaderComplete Proofs.StampReceive.
+Theorem C03_relayed_message_received : forall m n rest avail,
+  wf_msg m = true -> name_ok n = true -> stamp_fits n m = true ->
+  let m' := stamp n m in
+  spec_nfds (s_fields m') <= avail ->
+  exists msg,
+    load_message (s_le m) (m_flen m') (m_hlen m') (m_blen m') avail (spec_encode_message m' ++ rest) = inl msg /\
+    m_header msg ++ m_body msg = spec_encode_message m' /\
+    m_body msg = encs (s_le m) (s_body m) 0 /\
+    read_all (s_le m) (s_sig m) (m_body msg) = inl (s_body m) /\
+    get_field (s_fields m') 7 = Some (VStr 115 n).
+Proof. exact relayed_message_received. Qed.
+Print Assumptions C03_relayed_message_received.
